@@ -44,14 +44,6 @@ func genExprCase(e *Env) *jExprCase {
 	return c
 }
 
-func accumulate(ex expr.Expr, pts []XPoint) []byte {
-	b := make([]byte, ex.EncodedWidth())
-	for _, p := range pts {
-		ex.Update(b, p.params(), p.metadata())
-	}
-	return b
-}
-
 func mergeBytes(ex expr.Expr, x, y []byte) ([]byte, bool) {
 	x0 := append([]byte(nil), x...)
 	y0 := append([]byte(nil), y...)
@@ -64,6 +56,37 @@ func runExprCase(e *Env, c *jExprCase) error {
 	ex := c.E.Real()
 	if err := ex.Validate(); err != nil {
 		return fmt.Errorf("generated invalid expression %v: %v", ex, err)
+	}
+	g, ok := exprCaseGal(c, ex, nil)
+	c.NT = len(c.A)+len(c.B)+len(c.C) >= 2 && c.E.Size() >= 2
+	e.Case(g, c)
+	for _, k := range []string{"agg", "avg", "bin", "if", "bounded", "shift"} {
+		if c.E.HasKind(k) {
+			e.Count("has_" + k)
+		}
+	}
+	e.Count(fmt.Sprintf("size=%d", min(c.E.Size(), 8)))
+	if ok {
+		e.Count("get_set")
+	} else {
+		e.Count("get_unset")
+	}
+	return nil
+}
+
+// exprCaseGal runs the batches of c through the given expression object (the original, or one that
+// crossed the RPC codec) and prints the expr_case; md supplies the metadata per point (nil = the
+// oracle columns themselves as parameters c0, c1, ...).
+func exprCaseGal(c *jExprCase, ex expr.Expr, md func(p XPoint) goexpr.Params) (string, bool) {
+	if md == nil {
+		md = func(p XPoint) goexpr.Params { return p.metadata() }
+	}
+	accumulate := func(ex expr.Expr, pts []XPoint) []byte {
+		b := make([]byte, ex.EncodedWidth())
+		for _, p := range pts {
+			ex.Update(b, p.params(), md(p))
+		}
+		return b
 	}
 	cell := func(b []byte) string { s, _ := c.E.decodeCell(b); return s }
 	all := append(append(append([]XPoint(nil), c.A...), c.B...), c.C...)
@@ -81,20 +104,7 @@ func runExprCase(e *Env, c *jExprCase) error {
 	g := fmt.Sprintf("{| xc_e := %s;\n   xc_A := %s;\n   xc_B := %s;\n   xc_C := %s;\n   xc_stA := %s; xc_stB := %s; xc_stC := %s; xc_stABC := %s;\n   xc_mAB := %s; xc_mBA := %s; xc_mAB_C := %s; xc_mA_BC := %s;\n   xc_get := %s; xc_intact := %s |}",
 		c.E.Gal(), galPoints(c.A), galPoints(c.B), galPoints(c.C),
 		cell(stA), cell(stB), cell(stC), cell(stABC), cell(mAB), cell(mBA), cell(mABC), cell(mA_BC), get, gbool(i1 && i2 && i3 && i4 && i5))
-	c.NT = len(all) >= 2 && c.E.Size() >= 2
-	e.Case(g, c)
-	for _, k := range []string{"agg", "avg", "bin", "if", "bounded", "shift"} {
-		if c.E.HasKind(k) {
-			e.Count("has_" + k)
-		}
-	}
-	e.Count(fmt.Sprintf("size=%d", min(c.E.Size(), 8)))
-	if ok {
-		e.Count("get_set")
-	} else {
-		e.Count("get_unset")
-	}
-	return nil
+	return g, ok
 }
 
 func min(a, b int) int {
